@@ -37,7 +37,9 @@ func Dump(m Memory, start uint16, end uint16) {
 		fmt.Println(printableChars + "|")
 	}
 
-	for i := start; i <= end; i++ {
+	// Count in 32 bits: a 16 bit counter wraps around when end is 0xFFFF
+	for j := uint32(start); j <= uint32(end); j++ {
+		i := uint16(j)
 		crlfWritten = false
 
 		if byteCount == 0 {
